@@ -360,6 +360,11 @@ def selfcons_phase(ck, lr, fcases, fout, OBS, rng, limit, tag="selfcons"):
             # (generated ids are the same strings on both sides; results are sets: no numbering by first appearance here)
             a, b = canon_out(x, outs[kf_ + 2 + j]), canon_out(x, mo[nd + j])
             if a != b:
+                # (an index keeps the nodes of patterns that were removed: an answer in the class of a listed finding or documented behaviour
+                # of the property may differ between a location with a history and one built afresh)
+                if lr.classify(c, kf_ + 2 + j, x, mo[nd + j], outs[kf_ + 2 + j]):
+                    lr.stats["selfcons_known_class"] += 1
+                    break
                 ck.violation("after storage write %d failed inside %s the live location answers %s with %s, a location holding the same documents answers %s (%s state)" % (
                     c["failAt"], c["ops"][kf_]["op"], canon(x)[:100], a[1][:220], b[1][:220], c["state"]),
                     {"case": {kk: (v if kk != "ops" else v[: kf_ + 2] + [x]) for kk, v in c.items()}, "live": outs[kf_ + 2 + j], "rebuilt": mo[nd + j], "documents": outs[kf_ + 1]["ok"].get("facts")}, tag=tag)
